@@ -551,6 +551,8 @@ def _harness(ctx, cfg):
                     created is None and emitted1[0] == (None,))
         ctx.oblige("C20.payload", payload_ok, "C20")
     ctx.witness("state_changed", Not(And(S.same_graph(S0, S1), S.same_attrs(S0, S1), seg_same(p.seg0, seg1))))
+    if p.N >= 3:
+        ctx.witness("division", Or([S0.sh.outdeg[i] == 2 for i in range(p.N)]))
 
     if want("C01") or want("C07") or want("C08") or want("C09") or want("C20") or want("C06"):
         del p.emitted[:]
